@@ -33,13 +33,20 @@ def shapes():
         ("chain", g(3, [[], [1], [2]], ["exp", "exp", "cmd"], [False, False, False]), 1),
         ("diamond-j2", g(4, [[], [1], [1], [2, 3]], ["cmd", "exp", "exp", "combine"], [True, True, True, False]), 2),
         ("three-parallel-j3", g(4, [[], [], [], [1, 2, 3]], ["exp", "exp", "exp", "group"], [True, True, True, False]), 3),
+        # tasks that exit NON-zero around the interrupt: a status collected by the SIGCHLD handler but not yet consumed by the
+        # main loop belongs to a task that has not succeeded - no version may be recorded for it whatever the abort path does
+        ("two-parallel-fail", g(3, [[], [], [1, 2]], ["exp", "exp", "group"], [True, True, False]), 2, {"//:t2": 3}),
+        ("three-parallel-j3-fail", g(4, [[], [], [], [1, 2, 3]], ["exp", "exp", "exp", "group"], [True, True, True, False]), 3,
+         {"//:t1": 3, "//:t3": {"signal": 9}}),
     ]
 
 
 def make(shape, seed, abort_at=None, after_fork=None, sig="SIGINT", log=False):
-    name, g, jobs = shape
+    name, g, jobs = shape[:3]
+    codes = shape[3] if len(shape) > 3 else {}
     scn = RC.scenario_from_graph(g, placement=0, jobs=jobs,
-                                 sched={"seed": seed, "p_exit": 0.08, "p_deliver": 0.5, "allow_steal": False})
+                                 sched={"seed": seed, "p_exit": 0.08 if not codes else 0.3, "p_deliver": 0.5 if not codes else 0.25,
+                                        "allow_steal": False, "codes": codes})
     scn["abort_at"] = abort_at
     scn["abort_after_fork"] = after_fork
     scn["abort_sig"] = sig
